@@ -165,6 +165,7 @@ type hnode struct {
 	refuse     map[string]bool // itx descriptors the application refuses (not used by the model: keep empty)
 	commitLog  []int           // block indexes in delivery order
 	commitBody map[int]string  // body hash at delivery
+	batched    bool            // fed with InsertEvent only, passes run separately
 }
 
 func newNode(d *dag, id int, cache int, badgerDir string) *hnode {
@@ -799,6 +800,7 @@ func feed(nd *hnode, c *Case, order []*gEvent, batch func(i int) bool) {
 			continue
 		}
 		if batch != nil {
+			nd.batched = true
 			if nd.insertOnly(c, g) {
 				if batch(i) {
 					nd.pass(c)
